@@ -313,6 +313,108 @@ func probeSeqPanics(s *spec, ms []meth, seed uint64) map[string]string {
 	return bad
 }
 
+// safeDump: the state dump, tolerant of a container that a failed load has left inconsistent (the dump methods then
+// panic - deterministically, in sequential and concurrent runs alike)
+func safeDump(s *spec, inst interface{}) (d []int64) {
+	defer func() {
+		if recover() != nil {
+			d = []int64{-998}
+		}
+	}()
+	return s.dump(inst)
+}
+
+func takesDoc(m meth) bool {
+	for a := 0; a < m.typ.NumIn(); a++ {
+		if t := m.typ.In(a); t.Kind() == reflect.Slice && t.Elem().Kind() == reflect.Uint8 {
+			return true
+		}
+	}
+	return false
+}
+
+// loadDeterministic: does loading a document give the same observable state every time? (Containers that decode
+// through a Go map insert in random order: tree shapes, String() and Height() then differ from run to run, and the
+// set of serial outcomes cannot be enumerated by running each order once.)
+func loadDeterministic(s *spec, ms []meth) bool {
+	for _, m := range ms {
+		if !takesDoc(m) {
+			continue
+		}
+		for _, seed := range []uint64{11, 12, 13, 14, 15, 16, 17, 18} {
+			var first string
+			for rep := 0; rep < 5; rep++ {
+				inst := s.mk(2)
+				seqReset()
+				res, blocked := invokeSeq(inst, m, genArgs(m, vhlib.NewRng(seed), nil))
+				if blocked {
+					return false
+				}
+				obs := fmt.Sprint(encResult(m.name, res, s.sorted), safeDump(s, inst))
+				for _, f := range ms {
+					if f.typ.NumIn() == 0 && !takesDoc(f) && (f.name == "String" || f.name == "Height" || f.name == "Values" || f.name == "Keys") {
+						r2, _ := invokeSeq(inst, f, nil)
+						obs += fmt.Sprint(encResult(f.name, r2, s.sorted))
+					}
+				}
+				if rep == 0 {
+					first = obs
+				} else if obs != first {
+					return false
+				}
+			}
+		}
+	}
+	return true
+}
+
+// panicClass: method + message with the numbers removed ("Peek|runtime error: index out of range [] with length ")
+func panicClass(method, msg string) string {
+	var b strings.Builder
+	for _, c := range msg {
+		if c < '0' || c > '9' {
+			b.WriteRune(c)
+		}
+	}
+	return method + "|" + clipStr(b.String(), 60)
+}
+
+// seqWorkloadPanics: the SAME operation mix as the concurrent stress (same generators, same number of calls), issued by
+// one goroutine on one instance. Panics that occur here (e.g. a container left inconsistent by a failed UnmarshalJSON,
+// a nil map after Unmarshal("null")) are functional defects of the sequential code, not concurrency violations.
+func seqWorkloadPanics(c *stressCfg) map[string]bool {
+	classes := map[string]bool{}
+	total := 0
+	for _, w := range c.weights {
+		total += w
+	}
+	for round := 0; round < 3; round++ {
+		mk := c.s.mk
+		inst := mk(c.prefill)
+		seqReset()
+		r := vhlib.NewRng(c.seed*77 + uint64(round))
+		for i := 0; i < c.G*c.iters/2; i++ {
+			x := r.Intn(total)
+			m := c.methods[0]
+			for k, w := range c.weights {
+				if x < w {
+					m = c.methods[k]
+					break
+				}
+				x -= w
+			}
+			res, blocked := invokeSeq(inst, m, genArgs(m, vhlib.NewRng(r.U64()), nil))
+			if blocked {
+				return classes
+			}
+			if res.panicked {
+				classes[panicClass(m.name, res.pval)] = true
+			}
+		}
+	}
+	return classes
+}
+
 // replayPanic: can the same call panic the same way in a sequential run (in states produced by the same operation
 // mix)? If so it is a functional matter, not a concurrency one.
 func replayPanic(s *spec, ms []meth, p panicRec, seed uint64) bool {
@@ -377,11 +479,11 @@ func observe(s *spec, inst interface{}, results [][]callResult, sc *scenario) []
 			}
 		}
 		sort.Slice(all, func(i, j int) bool { return all[i] < all[j] })
-		d := append([]int64(nil), s.dump(inst)...)
+		d := append([]int64(nil), safeDump(s, inst)...)
 		sort.Slice(d, func(i, j int) bool { return d[i] < d[j] })
 		return digest(append(append(d, -7777), all...))
 	}
-	o = append(o, s.dump(inst)...)
+	o = append(o, safeDump(s, inst)...)
 	o = append(o, -7777)
 	for ti, t := range results {
 		for ci, r := range t {
@@ -490,6 +592,11 @@ func runConcurrent(s *spec, sc *scenario, timeout time.Duration) ([]int64, strin
 // judgeScenario: reps concurrent runs; one CSerial case per distinct observation.
 func judgeScenario(s *spec, sc *scenario, reps int, out *childOut, label string) {
 	outs := serialOutcomes(s, sc)
+	if again := serialOutcomes(s, sc); fmt.Sprint(again) != fmt.Sprint(outs) {
+		n, _ := out.Notes["scenarios_skipped_nondeterministic"].(int)
+		out.Notes["scenarios_skipped_nondeterministic"] = n + 1
+		return // the sequential code itself is not deterministic on these calls: no oracle
+	}
 	seen := map[string]int{}
 	var order []string
 	obsOf := map[string][]int64{}
@@ -733,8 +840,34 @@ func childType(o vhlib.Opts, name string, tab *table, out *childOut) {
 	for i := range w {
 		w[i] = 1
 	}
-	cfg := &stressCfg{s: s, tab: tab, methods: ms, weights: w, G: G, iters: iters, prefill: 6, timeout: 40 * time.Second, seed: o.Seed}
-	panics, dl, calls := runStress(cfg)
+	// phase 1: everything except the methods that load a document (a failed load may leave some containers in an
+	// inconsistent state - a functional matter - and would then dominate the mix); phase 2: everything
+	w1 := make([]int, len(ms))
+	nload := 0
+	for i, m := range ms {
+		w1[i] = 1
+		for a := 0; a < m.typ.NumIn(); a++ {
+			if t := m.typ.In(a); t.Kind() == reflect.Slice && t.Elem().Kind() == reflect.Uint8 {
+				w1[i] = 0
+				nload++
+			}
+		}
+	}
+	var panics []panicRec
+	var dl string
+	var calls int64
+	cfg := &stressCfg{s: s, tab: tab, methods: ms, weights: w1, G: G, iters: iters * 2 / 3, prefill: 6, timeout: 40 * time.Second, seed: o.Seed}
+	if nload > 0 && nload < len(ms) {
+		panics, dl, calls = runStress(cfg)
+	}
+	if dl == "" {
+		cfg = &stressCfg{s: s, tab: tab, methods: ms, weights: w, G: G, iters: iters / 2, prefill: 6, timeout: 40 * time.Second, seed: o.Seed + 1}
+		if nload == 0 {
+			cfg.iters = iters
+		}
+		p2, d2, c2 := runStress(cfg)
+		panics, dl, calls = append(panics, p2...), d2, calls+c2
+	}
 	out.Calls = calls
 	if dl != "" {
 		label, what := name, "deadlock (watchdog: calls still in flight after 40s)"
@@ -748,13 +881,20 @@ func childType(o vhlib.Opts, name string, tab *table, out *childOut) {
 		return
 	}
 	seenP := map[string]bool{}
+	var seqClasses map[string]bool
 	for _, p := range panics {
-		k := p.Method + "|" + clipStr(p.Msg, 24)
+		k := panicClass(p.Method, p.Msg)
 		if seenP[k] {
 			continue
 		}
 		seenP[k] = true
-		if replayPanic(s, ms, p, o.Seed) {
+		if seqClasses == nil {
+			seqClasses = seqWorkloadPanics(cfg)
+		}
+		// If the same operation mix panics at all when issued by ONE goroutine, the container can be brought into an
+		// inconsistent state sequentially (e.g. by a failed load) and a panic under concurrency cannot be attributed to
+		// concurrency: noted, not reported.
+		if len(seqClasses) > 0 || replayPanic(s, ms, p, o.Seed) {
 			l, _ := out.Notes["sequential_panics_seen_in_stress"].([]string)
 			out.Notes["sequential_panics_seen_in_stress"] = append(l, p.Method+": "+clipStr(p.Msg, 80))
 			continue
@@ -771,8 +911,18 @@ func childType(o vhlib.Opts, name string, tab *table, out *childOut) {
 	if o.Thorough() {
 		nrand, reps, sg, sper = 90, 50, 8, 12
 	}
-	for i := 0; i < nrand; i++ {
-		judgeScenario(s, randomScenario(s, ms, r, i), reps, out, name+" serial-outcome")
+	msScen := ms
+	if !loadDeterministic(s, ms) {
+		msScen = nil
+		for _, m := range ms {
+			if !takesDoc(m) {
+				msScen = append(msScen, m)
+			}
+		}
+		out.Notes["load_nondeterministic"] = "loading a document gives run-dependent observables (map iteration order): document-loading methods are left out of the serial-outcome scenarios of this type (they stay in the race/deadlock stress)"
+	}
+	for i := 0; i < nrand && len(msScen) > 0; i++ {
+		judgeScenario(s, randomScenario(s, msScen, r, i), reps, out, name+" serial-outcome")
 	}
 	for _, sc := range structuredScenarios(s, ms, sg, sper) {
 		judgeScenario(s, sc, reps/2+1, out, name+" "+sc.name)
@@ -821,8 +971,18 @@ func childTarget(o vhlib.Opts, name string, tab *table, out *childOut) {
 	if dl != "" {
 		out.Violations = append(out.Violations, violOut{name, "deadlock (watchdog: calls still in flight after 40s)", dl})
 	}
+	var seqClasses map[string]bool
+	seenP := map[string]bool{}
 	for _, p := range panics {
-		if !replayPanic(s, ms, p, o.Seed) {
+		k := panicClass(p.Method, p.Msg)
+		if seenP[k] {
+			continue
+		}
+		seenP[k] = true
+		if seqClasses == nil {
+			seqClasses = seqWorkloadPanics(cfg)
+		}
+		if len(seqClasses) == 0 && !replayPanic(s, ms, p, o.Seed) {
 			out.Violations = append(out.Violations, violOut{name, "panic under concurrent use while stressing " + name, p})
 			break
 		}
@@ -932,7 +1092,7 @@ func roCrossCheck(w *vhlib.Writer, tab *table, rng *vhlib.Rng) {
 			for _, n := range []int{0, 1, 4, 9} {
 				for k := 0; k < 6; k++ {
 					inst := s.mkU(n)
-					b := s.dump(inst)
+					b := safeDump(s, inst)
 					res := invoke(inst, *m, genArgs(*m, rng, nil))
 					if res.panicked {
 						continue
@@ -940,7 +1100,7 @@ func roCrossCheck(w *vhlib.Writer, tab *table, rng *vhlib.Rng) {
 					trials++
 					before = append(before, b...)
 					before = append(before, -1)
-					after = append(after, s.dump(inst)...)
+					after = append(after, safeDump(s, inst)...)
 					after = append(after, -1)
 				}
 			}
@@ -1019,6 +1179,15 @@ func delegateSanity(w *vhlib.Writer, tab *table, seed uint64) {
 		if reported {
 			continue
 		}
+		if !loadDeterministic(s, ms) { // map-order dependent loads: wrapper and twin would legitimately differ
+			var keep []meth
+			for _, m := range ms {
+				if !takesDoc(m) {
+					keep = append(keep, m)
+				}
+			}
+			ms = keep
+		}
 		tm, _ := usableMethods(twin)
 		r := vhlib.NewRng(seed*17 + 3)
 		var a, b []int64
@@ -1042,8 +1211,8 @@ func delegateSanity(w *vhlib.Writer, tab *table, seed uint64) {
 			a = append(a, encResult(m.name, ra, s.sorted)...)
 			b = append(b, encResult(m.name, rb, s.sorted)...)
 			if s.name != "lscq.QueueSafe" {
-				a = append(a, s.dump(safe)...)
-				b = append(b, s.dump(twin)...)
+				a = append(a, safeDump(s, safe)...)
+				b = append(b, safeDump(s, twin)...)
 			}
 			a, b = append(a, -5), append(b, -5)
 			steps++
